@@ -200,7 +200,11 @@ def run(ctx):
                        ("CUSUM", lambda: CUSUM(), 3, 1), ("ChangeScore(L2Cost)", lambda: ChangeScore(L2Cost()), 3, 1), ("L2Saving", lambda: L2Saving(), 2, 1),
                        ("Saving(L2Cost(0))", lambda: Saving(L2Cost(0.0)), 2, 1), ("LocalAnomalyScore(L2Cost)", lambda: LocalAnomalyScore(L2Cost()), 4, 1),
                        ("L2Cost(2.5)", lambda: L2Cost(2.5), 2, 1), ("GaussianVarCost((0.5, 1.5))", lambda: GaussianVarCost((0.5, 1.5)), 2, 2),
-                       ("Saving(L2Cost(-1.25))", lambda: Saving(L2Cost(-1.25)), 2, 1)]
+                       ("Saving(L2Cost(-1.25))", lambda: Saving(L2Cost(-1.25)), 2, 1),
+                       # every fixed-parameter cost, bare and wrapped: parameter validation must look at the CONVERTED data, whatever container was passed
+                       ("GaussianCovCost((0.5, 1.5))", lambda: GaussianCovCost((0.5, 1.5)), 2, p + 1), ("Saving(GaussianCovCost((0, 1)))", lambda: Saving(GaussianCovCost((0.0, 1.0))), 2, p + 1),
+                       ("Saving(GaussianVarCost((0, 1)))", lambda: Saving(GaussianVarCost((0.0, 1.0))), 2, 2), ("ChangeScore(GaussianVarCost)", lambda: ChangeScore(GaussianVarCost()), 3, 2),
+                       ("LocalAnomalyScore(GaussianVarCost((0, 1)))", lambda: LocalAnomalyScore(GaussianVarCost((0.0, 1.0))), 4, 2)]
             for name, mk, k, ms in scorers:
                 cuts = []
                 for _ in range(5):
